@@ -1237,6 +1237,16 @@ for _t in ('HashMap', 'IndexMap', 'BTreeMap'):
             return none()
         return some(mp.kv.pop(j)[1])
     M['%s::remove' % _t] = _remove
+    def _map_retain(it, c, a):
+        mp = deref(a[0]); keep = []
+        for j in range(len(mp.kv)):
+            k = mp.kv[j][0]
+            if it.choose_bool(it.call_closure(a[1], [RefV([k], 0), RefV(_KVRef(mp, j), 1)])):
+                keep.append(j)
+        mp.kv[:] = [mp.kv[j] for j in keep]
+        return UNIT
+    M['%s::retain' % _t] = _map_retain
+    M['%s::clear' % _t] = lambda it, c, a: (deref(a[0]).kv.clear(), UNIT)[1]
     M['%s::iter' % _t] = lambda it, c, a: as_iter(it, deref(a[0]))
     M['%s::keys' % _t] = lambda it, c, a: PyIter((RefV([k], 0) for k, v in list(deref(a[0]).kv)))
     M['%s::values' % _t] = lambda it, c, a: PyIter((RefV(_KVRef(deref(a[0]), j), 1) for j in range(len(deref(a[0]).kv))))
@@ -1473,7 +1483,7 @@ def text_range_bounds(it, r):
     raise Unsupported('text range %r' % (r,))
 
 
-@model('<str as Index>::index', '<String as Index>::index', 'str::get')
+@model('<str as Index>::index', '<String as Index>::index')
 def _str_index(it, c, a):
     s = deref(a[0]); r = deref(a[1])
     if isinstance(s, StrV) and isinstance(r, Opaque):
@@ -1489,6 +1499,49 @@ def _str_index(it, c, a):
     if isinstance(s, StrSym):
         r2.off += s.off
     return r2
+
+
+@model('str::get', 'String::get')
+def _str_get(it, c, a):
+    """str::get(range) -> Option<&str>: None where indexing would panic (out of bounds, not on a char boundary)"""
+    r = deref(a[1])
+    if isinstance(r, Opaque) or isinstance(deref(a[0]), Opaque):
+        return some(Opaque(('slice', r)))
+    try:
+        return some(_str_index(it, c, a))
+    except Panic as e:
+        if e.kind != 'str-slice':
+            raise
+        return none()
+
+
+@tmodel('Context', 'with_context', 'context')
+def _anyhow_context(it, c, a):
+    """anyhow::Context on Option / Result: Some(x) | Ok(x) -> Ok(x), None | Err(_) -> Err(error); the message closure is not run"""
+    v = a[0]
+    if isinstance(v, Agg) and v.name in ('Option', 'Result'):
+        if v.variant in ('Some', 'Ok'):
+            return ok(v.fields[0])
+        return err(Opaque('anyhow-error'))
+    return NotImplemented
+
+
+@tmodel('Extend', 'extend')
+def _extend(it, c, a):
+    tgt = deref(a[0])
+    if isinstance(tgt, StringV):
+        for x in _drain_all(it, a[1]):
+            x = deref(x)
+            if isinstance(x, (StrSym, StringV, StrV)):
+                tgt.b.extend(str_bytes(x))
+            else:
+                tgt.b.extend(encode_char(it, x))
+        return UNIT
+    if isinstance(tgt, VecV):
+        for x in _drain_all(it, a[1]):
+            tgt.items.append(x)
+        return UNIT
+    return NotImplemented
 
 
 @model('String::new', '<String as Default>::default')
